@@ -1115,3 +1115,27 @@ def _isclose(lib, run, recv, args, kw):
     if isinstance(args[0], SeqV) and args[0].kind == 'R' and isinstance(args[1], (Num, BoolV)):
         return SeqV('B', closemask(args[0].term, real(args[1])))
     return BoolV(isclosef(real(args[0]), real(args[1])))
+
+
+@reg('opaque.info', 'opaque.debug', 'opaque.warning', 'opaque.error')
+def _log_call(lib, run, recv, args, kw):
+    return NONE         # logging has no effect on any state under contract (A9)
+
+
+@reg('set.intersection', 'set.union', 'set.difference')
+def _set_method(lib, run, recv, args, kw):
+    raise Unsupported('set method dispatch')
+
+
+def _mk_set_method(op):
+    def h(lib, run, recv, args, kw):
+        other = args[0]
+        if not (isinstance(other, Lazy) and other.kind == 'setof'):
+            other = Lazy('setof', payload=other)
+        return lib.set_op(run, op, recv, other)
+    return h
+
+
+TABLE['set.intersection'] = _mk_set_method('BitAnd')
+TABLE['set.union'] = _mk_set_method('BitOr')
+TABLE['set.difference'] = _mk_set_method('Sub')
